@@ -52,6 +52,9 @@ DET = ("skchange.change_detectors", "SeededBinarySegmentation")
 
 
 def check(ctx):
+    from .c10 import shared_no_stale
+
+    shared_no_stale(ctx, "C07.e WIRING", [("skchange.change_detectors", "SeededBinarySegmentation")])
     cls = ctx.P.public_class(*DET)
     pred = ctx.P.lookup_method(cls, "_predict")
     cands = find_driver_call(ctx, pred)
@@ -70,18 +73,44 @@ def check(ctx):
     ctx.expect_min("C07", len([o for o in ctx.obs if o.status == "HOLDS"]), 20)
 
 
+def _unpack_calls(ctx, drv: FuncInfo):
+    """(assign node, callee, inside_loop) for every `a, b = f(...)` with f a module-level repo function"""
+    out = []
+
+    def walk(body, in_loop):
+        for st in body:
+            if isinstance(st, ast.Assign) and isinstance(st.value, ast.Call) and isinstance(st.targets[0], ast.Tuple) and len(st.targets[0].elts) == 2:
+                fn = st.value.func
+                r = ctx.P.resolve_expr(drv.module, fn) if isinstance(fn, (ast.Name, ast.Attribute)) else None
+                if isinstance(r, FuncInfo) and r.cls is None:
+                    out.append((st, r, in_loop))
+            for f in ("body", "orelse", "finalbody"):
+                sub = getattr(st, f, None)
+                if isinstance(sub, list) and not isinstance(st, (ast.FunctionDef, ast.ClassDef)):
+                    walk(sub, in_loop or isinstance(st, (ast.For, ast.While)))
+
+    walk(drv.node.body, False)
+    return out
+
+
 def discover_helpers(ctx, drv: FuncInfo):
+    """structural roles (independent of local variable names): the interval generator is the repo function whose pair of
+    results is unpacked outside any loop; the selector is the repo function that receives both of those results"""
     gen = sel = None
+    gen_targets = set()
+    for st, r, in_loop in _unpack_calls(ctx, drv):
+        if not in_loop and gen is None:
+            gen = r
+            gen_targets = {e.id for e in st.targets[0].elts if isinstance(e, ast.Name)}
+    if gen is None:
+        return None, None
     for n in ast.walk(drv.node):
-        if isinstance(n, ast.Assign) and isinstance(n.value, ast.Call) and isinstance(n.targets[0], ast.Tuple) and len(n.targets[0].elts) == 2:
-            r = ctx.P.resolve_expr(drv.module, n.value.func) if isinstance(n.value.func, (ast.Name, ast.Attribute)) else None
-            if isinstance(r, FuncInfo) and r.cls is None and gen is None and not any(isinstance(a, ast.Name) and a.id in ("start", "end") for a in n.value.args):
-                if any("shape" in ast.unparse(a) for a in n.value.args):
-                    gen = r
         if isinstance(n, ast.Call) and isinstance(n.func, (ast.Name, ast.Attribute)):
             r = ctx.P.resolve_expr(drv.module, n.func)
-            if isinstance(r, FuncInfo) and r.cls is None and any(isinstance(a, ast.Name) and a.id == "threshold" for a in n.args):
-                sel = r
+            if isinstance(r, FuncInfo) and r.cls is None and r is not gen:
+                names = {a.id for a in list(n.args) + [k.value for k in n.keywords] if isinstance(a, ast.Name)}
+                if gen_targets and gen_targets <= names:
+                    sel = r
     return gen, sel
 
 
